@@ -272,10 +272,19 @@ pub fn run(toks: &[&str]) -> String {
     r.unit = match r.disk.new_fimg(None,false,if fs.starts_with("cpm") {"A.B"} else {"A"}) { Ok(f) => f.chunk_len, Err(_) => 512 };
     let do_fsck = opts.contains('k');
     let do_reload = opts.contains('r');
+    // focus mode "@Cxx": a failure that belongs to other properties only is noted and the history goes on, so that the later
+    // symptom of property Cxx (say, two files owning one block after a wrong free count) is reached
+    let focus: Option<String> = opts.find('@').map(|i| opts[i+1..i+4].to_string());
     let init_rec = crate::fsckrun::init_record(fs,label,&mut r.disk);
     let t0 = trace_line(&mut r,"init");
     r.trace.push(t0);
     let mut fail: Option<String> = None;
+    let mut foreign_notes: Vec<String> = Vec::new();
+    macro_rules! raise { ($m:expr) => {{
+        let m: String = $m;
+        let foreign = match &focus { Some(fc) => { let head = m.split(' ').next().unwrap_or(""); !head.split(',').any(|c| c==fc) && !m.contains("panicked") }, None => false };
+        if foreign { if foreign_notes.len()<40 { foreign_notes.push(format!("other-property: {}",m.chars().take(160).collect::<String>())); } } else { fail = Some(m); break; }
+    }} }
     for (step,op) in ops.iter().enumerate() {
         let f: Vec<&str> = op.split('~').collect();
         let free_before = r.free().unwrap_or(0);
@@ -392,17 +401,17 @@ pub fn run(toks: &[&str]) -> String {
                 fail = Some(format!("C04 panicked: {} [step {} op {}]",msg.replace('\n'," "),step,op)); break; }
         };
         r.bump(&format!("{}-{}",f[0],res));
-        if let Some(e) = oracle { fail = Some(format!("{} [step {} op {}]",e,step,op)); break; }
+        if let Some(e) = oracle { raise!(format!("{} [step {} op {}]",e,step,op)); }
         // after lock/unlock/retype the touched file's metadata legitimately changed: refresh its reference read
         if matches!(f[0],"L"|"U"|"T"|"R") && res=="ok" {
             if let Some(k) = &touched { if r.shadow.get(k).map(|sh| !sh.is_dir).unwrap_or(false) {
                 match do_get(&mut r.disk,&api_path(&r.fs,k)) {
                     Ok(g) => {
                         let sh = r.shadow.get_mut(k).unwrap();
-                        if let Some(prev) = &sh.got { if prev.chunks!=g.chunks || prev.eof!=g.eof { fail = Some(format!("C19 {} of {} altered data or length [step {}]",f[0],k,step)); } }
+                        if let Some(prev) = &sh.got { if prev.chunks!=g.chunks || prev.eof!=g.eof { raise!(format!("C19 {} of {} altered data or length [step {}]",f[0],k,step)); } }
                         sh.got = Some(g);
                     },
-                    Err(e) => { fail = Some(format!("C19 get of {} after {} failed: {} [step {}]",k,f[0],e,step)); }
+                    Err(e) => { raise!(format!("C19 get of {} after {} failed: {} [step {}]",k,f[0],e,step)); }
                 }
             } }
             if fail.is_some() { break; }
@@ -417,36 +426,37 @@ pub fn run(toks: &[&str]) -> String {
             match catch_unwind(AssertUnwindSafe(|| fsck_alpha(&mut r))) {
                 Ok(Some(a)) => {
                     let v = a.check();
-                    if !v.is_empty() { fail = Some(format!("C03 fsck: {} [step {} op {} res {}]",v[..v.len().min(3)].join("; "),step,op,res)); break; }
+                    if !v.is_empty() { raise!(format!("C03 fsck: {} [step {} op {} res {}]",v[..v.len().min(3)].join("; "),step,op,res)); }
                     let free = r.free().unwrap_or(0);
-                    if a.free_units()!=free { fail = Some(format!("C04 reported free {} but the allocation map has {} free units [step {} op {}]",free,a.free_units(),step,op)); break; }
+                    if a.free_units()!=free { raise!(format!("C04 reported free {} but the allocation map has {} free units [step {} op {}]",free,a.free_units(),step,op)); }
                     let leaked = a.leaked();
                     if !leaked.is_empty() {
-                        if r.stats.keys().all(|k| !k.ends_with("-ref")) { fail = Some(format!("C04 units {:?} marked used but owned by nothing after successful operations only [step {} op {}]",&leaked[..leaked.len().min(8)],step,op)); break; }
+                        if r.stats.keys().all(|k| !k.ends_with("-ref")) { raise!(format!("C04 units {:?} marked used but owned by nothing after successful operations only [step {} op {}]",&leaked[..leaked.len().min(8)],step,op)); }
                         else { r.notes.push(format!("leak after a refused op: {} units",leaked.len())); }
                     }
                     // C03 also: listing of the independent reader = shadow
                     let mut names: Vec<(String,bool)> = a.entries.iter().map(|e| (crate::fsckrun::canon_path(&r.fs,&e.path),e.is_dir)).collect();
                     names.sort();
                     let want: Vec<(String,bool)> = r.shadow.iter().map(|(k,v)| (k.clone(),v.is_dir)).collect();
-                    if names!=want { fail = Some(format!("C03 independent reading lists {:?} but history says {:?} [step {} op {}]",names.iter().filter(|x| !want.contains(x)).collect::<Vec<_>>(),want.iter().filter(|x| !names.contains(x)).collect::<Vec<_>>(),step,op)); break; }
+                    if names!=want { raise!(format!("C03 independent reading lists {:?} but history says {:?} [step {} op {}]",names.iter().filter(|x| !want.contains(x)).collect::<Vec<_>>(),want.iter().filter(|x| !names.contains(x)).collect::<Vec<_>>(),step,op)); }
                 },
                 Ok(None) => {},
-                Err(_) => { fail = Some(format!("C03 fsck reader panicked [step {} op {}]",step,op)); break; }
+                Err(_) => { raise!(format!("C03 fsck reader panicked [step {} op {}]",step,op)); }
             }
         }
         match catch_unwind(AssertUnwindSafe(|| r.check_all(step,&touched))) {
             Ok(Ok(())) => {},
-            Ok(Err(e)) => { fail = Some(format!("{} [step {} op {} res {}]",e,step,op,res)); break; },
-            Err(_) => { fail = Some(format!("C12 observation panicked [step {} op {}]",step,op)); break; }
+            Ok(Err(e)) => { raise!(format!("{} [step {} op {} res {}]",e,step,op,res)); },
+            Err(_) => { raise!(format!("C12 observation panicked [step {} op {}]",step,op)); }
         }
         // C04: put followed by delete restores free (checked when the generator emits D right after P of the same path)
         let tl = trace_line(&mut r,&res);
         r.trace.push(tl);
         if do_reload && (step%4==3 || step+1==ops.len()) {
-            if let Err(e) = crate::fsckrun::reload_check(&mut r) { fail = Some(format!("C06 {} [step {} op {}]",e,step,op)); break; }
+            if let Err(e) = crate::fsckrun::reload_check(&mut r) { raise!(format!("C06 {} [step {} op {}]",e,step,op)); }
         }
     }
+    r.notes.append(&mut foreign_notes);
     let mut stats: Vec<String> = r.stats.iter().map(|(k,v)| format!("{}={}",k,v)).collect();
     stats.sort();
     let head = match fail { Some(e) => format!("FAIL {}",e), None => format!("ok {}",stats.join(",")) };
